@@ -363,6 +363,15 @@ Definition inv_b (cfg : config) (md : mode) (t : tx) (o : oracle) : bool :=
           || common_addresses_exist (t_signers t) (c_authorised cfg))
   end.
 
+(* the harness's abstraction of a real tx never yields a [Plain] with the URL of
+   MsgExec or MsgGrant (see [plain_wf]); checked on every recorded tx *)
+Fixpoint msg_wf_b (m : msg) : bool :=
+  match m with
+  | Plain u => negb (String.eqb u url_exec) && negb (String.eqb u url_grant)
+  | Grant _ => true
+  | Exec ms => forallb msg_wf_b ms
+  end.
+
 Record step := mkStep {
   s_mode : mode;
   s_tx : tx;
@@ -394,6 +403,7 @@ Fixpoint first_mismatch (cfg : config) (ss : list step) (i : nat) : option nat :
   | s :: r =>
       if obs_eqb (obs_of (ante cfg (s_mode s) (s_tx s) (s_oracle s))) (s_obs s)
          && inv_b cfg (s_mode s) (s_tx s) (s_oracle s)
+         && forallb msg_wf_b (t_msgs (s_tx s))
       then first_mismatch cfg r (S i)
       else Some i
   end.
